@@ -671,7 +671,9 @@ func (g *progGen) stmt() string {
 			}
 			return "\tDB\t" + strings.Join(xs, ", ")
 		case 1:
-			strs := []string{"hello", "HARIBOTEOS ", "load error", "ab", "x"}
+			strs := []string{"hello", "HARIBOTEOS ", "load error", "ab", "x",
+				// comment characters and the other quote inside a literal: a comment scanner that is not the parser's must not cut here
+				"can't boot; halt", "it's #2; x", "a;b#c", "#;'", "50% ; 'q' # r"}
 			if g.nonASCII && r.Chance(1, 2) {
 				strs = []string{"こんにちは, world", "ロードエラー", "表示", "ｶﾀｶﾅ", "é", "日本語OS"}
 			}
